@@ -306,7 +306,8 @@ def replay(hosts: dict, beh: dict, check: set[str]) -> tuple[list, int]:
                 if op.endswith('other'):
                     donor = dn.node(cname, s)
                     if s['kind'] == 'rep':
-                        donor = dn.empty_list_donor(cname, s) or donor
+                        e = dn.empty_list_donor(cname, s)
+                        donor = e if e is not None else donor      # (an empty wrapper is falsy)
                 else:
                     donor = next((x for p2, x in tree.walk(f) if x is not cur and cur is not None and type(x) is type(cur)
                                   and not (id(x.first_token) in cur_tokens)), None) if s['kind'] != 'rep' else None
@@ -323,7 +324,11 @@ def replay(hosts: dict, beh: dict, check: set[str]) -> tuple[list, int]:
         if exc != ev['exc']:
             if 'exc' in check:
                 add('exc', ev, f'expected {ev["exc"] or "success"}, got {exc or "success"}; text {text!r}')
-            if ev['exc'] and not exc and 'refusal' in check:
+            if ev['exc'] and not exc and 'tree' in check:
+                bad = tree.wellformed(f)
+                if bad:
+                    add('tree', ev, 'after an attached node was accepted: ' + '; '.join(bad[:3]))
+            if ev['exc'] and exc != ev['exc'] and 'refusal' in check:
                 add('refusal', ev, f'a node that already lives in a document was accepted; text now {text!r}')
             break
         if exc:
